@@ -298,6 +298,28 @@ func (e *specEnv) callExpr(n *ECall, hint types.Type) sv {
 			sfail("lastarg: no recorded argument %s of %s (is it called in this function?)", ii.Val, id.Name)
 		}
 	}
+	if n.Fun == "dyn" || n.Fun == "isdyn" {
+		// dyn(x, T): the value of dynamic type T that the interface value x holds (what x.(T) yields
+		// when it succeeds); isdyn(x, T): x holds a value of dynamic type T
+		argn(2)
+		x := e.eval(n.Args[0], nil)
+		if x.typ == nil {
+			sfail("%s(x, T) needs an interface value", n.Fun)
+		}
+		if _, ok := x.typ.Underlying().(*types.Interface); !ok {
+			sfail("%s(x, T) needs an interface value", n.Fun)
+		}
+		ty, err := e.resolveType(n.Args[1].String())
+		if err != nil {
+			sfail("%s: %v", n.Fun, err)
+		}
+		it := e.term(x, x.typ)
+		if n.Fun == "isdyn" {
+			return sv{Val: Val{t: fmt.Sprintf("(= (i_tag %s) %d)", it, u.eng.typeID(ty)), typ: tBool}}
+		}
+		_, ubx := u.boxFns(ty, u.sortOf(ty))
+		return sv{Val: Val{t: "(" + ubx + " (i_pay " + it + "))", typ: ty}}
+	}
 	if n.Fun == "bhas" {
 		// bhas(b, x): x is an element of the set represented by the roaring bitmap b (ghost view)
 		argn(2)
